@@ -241,6 +241,11 @@ func (r *run) Step(ev explore.Event) []explore.Violation {
 		valid, effect := true, func() {}
 		switch sp.Kind {
 		case "MailboxCreated":
+			if n, ok := r.remote[sp.Mbox]; ok {
+				if _, still := r.boxes[n]; !still {
+					delete(r.remote, sp.Mbox) // the mailbox of that id was deleted by a client meanwhile: the id is free again
+				}
+			}
 			if _, ok := r.remote[sp.Mbox]; ok {
 				effect = func() {} // duplicate: no-op
 			} else if _, ok := r.boxes[r.canonName(name)]; ok {
